@@ -91,6 +91,8 @@ def worker(unit, emit):
 def main():
     chk = run.Check(PROP)
     quick = chk.tier == 'quick'
+    chk.mc('ApiDesign', 'MC_ApiDesign_code', workers=8, label='clean-up pipeline as the code composes it: outcome determined by compact()')
+    chk.mc('ApiDesign', 'MC_ApiDesign_precheck', workers=4, expect_violation='CompactDetermined', label='hazard: a test on the raw argument before compact()')
     scripts1 = gen_scripts(chk, 'Gen_Decor1')
     scripts2 = gen_scripts(chk, 'Gen_Decor2R', simulate='num=%d' % (100 if quick else 2500), depth=3)
     p = {'seed': chk.seed, 'bases': 2 if quick else 15, 'near': 2 if quick else 6, 'k': 1 if quick else 3,
